@@ -8,8 +8,11 @@ import pkgutil
 from . import common as C
 from . import props
 
-NOT_BUILT = {}  # property_id -> reason (filled below from properties.jsonl for anything without a module)
 REASONS = {}    # explicit reasons for properties deliberately not claimed
+
+# Properties whose check has been confirmed by the coordinator (OK on the unchanged tree for
+# several seeds, teeth demonstrated).  Anything else is listed under not_applicable until then.
+CONFIRMED = ["C02", "C03", "C04", "C08", "C09", "C12", "C14", "C15", "C17", "C18", "C19", "C20"]
 
 
 def main():
@@ -17,9 +20,11 @@ def main():
     mods = {}
     for m in pkgutil.iter_modules(props.__path__):
         P = importlib.import_module("harness.props." + m.name)
-        if getattr(P, "CLAIMED", True):
+        if not hasattr(P, "ID"):
+            continue
+        if getattr(P, "CLAIMED", True) and P.ID in CONFIRMED and all(hasattr(P, a) for a in ("TECHNIQUE", "LEVEL_TEXT", "LEVEL_NOTE")):
             mods[P.ID] = P
-        else:
+        elif not getattr(P, "CLAIMED", True):
             REASONS[P.ID] = P.NOT_CLAIMED_REASON
     checks = []
     for i in ids:
